@@ -178,6 +178,17 @@ def register(chk):
     c03_t1.register(chk)       # ARMv6-M (Thumb-1) back end (interpreter over the macro-expanded GNU-as sources, cross-checked against clang's assembler)
 
 
+def include_in(chk):
+    """this check's obligations registered inside a check of a layer above (framework.Check.include): every back end of the field kernels"""
+    sys.path.insert(0, os.path.dirname(os.path.abspath(__file__)))
+    x86_prog()
+    import c02
+    for cfg in ("P64", "P32"):
+        c02.prog_for(cfg)
+    chk.replayer = replay_kernel
+    register(chk)
+
+
 def main(argv=None):
     chk = Check("C03", "proof", argv)
     chk.replayer = replay_kernel
